@@ -36,6 +36,24 @@ def validity_pattern(d):
     return (tuple(pat),)
 
 
+def _comparable(prop, g, m):
+    """Whether the two sides' projections are about the same thing.  Which strings are accepted is C07/C08's
+    statement; the properties about accepted vectors (scores, fields, encoding, views) are compared where both
+    sides accept, the one about rejections (C11) where both reject.  C12 (never both, never neither; invalid
+    objects answer with an error and +0) is compared everywhere, its left-behind-object part where both reject."""
+    if any(x.get("_") and x["_"][0] in ("PANIC", "CRASH", "TIMEOUT", "bad-op") for x in (g, m)):
+        return True
+    rg, rm = g.get("r"), m.get("r")
+    if prop in ("C07", "C08", "C06", "C13"):
+        return True
+    if prop == "C11":
+        return rg == "0" and rm == "0"
+    if prop == "C12":
+        coh = lambda d: d.get("r") in ("0", "1") and ((d.get("r") == "1") == (d.get("e", "-") == "-"))
+        return coh(g) != coh(m) or rg == rm
+    return rg == "1" and rm == "1"
+
+
 def project(prop, op, d):
     """projection of a parsed result line onto what property `prop` is about"""
     if "_" in d and d["_"] and d["_"][0] in ("PANIC", "CRASH", "TIMEOUT", "bad-op"):
@@ -151,7 +169,7 @@ def run_decode_stream(prop, name, ops, exhaustive=False, known=None):
         else:
             pg = project(prop, f, g)
             pm = project(prop, f, m)
-        if pg != pm:
+        if pg != pm and _comparable(prop, g, m):
             res.mismatch.append((op, go[i], mo[i]))
         for p, msgs in out.by.items():
             if p == prop:
